@@ -155,4 +155,3 @@ func (w *World) ruleTypeSlots(r *Report, rule string) {
 	}
 	r.floor(rule, len(ks), 3)
 }
-
